@@ -43,7 +43,7 @@ Section Term.
   Notation TC := (TC p defs cur U).
   Notation lifted_ok := (lifted_ok p defs).
 
-  Hypothesis Hcallee : forall f d, ffind_def p f = Some d -> f <> "main" ->
+  Hypothesis Hcallee : forall f d, ffind_def p f = Some d -> (f <> "main" \/ calls_main_prog p = true) ->
     exists a body, find (fun d' => cident_eqb (cdname d') (new_id f)) defs =
                    Some (mkcd (new_id f) (compile_ctx (fdctx d) ++ [mkcb (new_id a) CCns (compile_ty (fdret d))]) body).
 
